@@ -298,7 +298,7 @@ struct C13 : Scenario {
             Cfg c; auto pl = runnable_placements(r, c, true);
             plan_put(p, pl);
             p.seti("sigint", r.chance(0.3));
-        } else plan_put(p, gen_placements(r, true, false));
+        } else plan_put(p, gen_placements(r, true, r.chance(0.5)));   // half of the plans also give options in both places
         return p;
     }
 
